@@ -10,7 +10,7 @@ import vs "github.com/bandprotocol/chain/v3/vsupport"
 var verifRandScalarHook func() (Scalar, error)
 var verifRandBytesHook func(int) ([]byte, error)
 
-func verifUseTapeRandomness() {
+func VerifUseTapeRandomness() {
 	vs.AllowRandom()
 	if !vs.Symbolic() {
 		verifRandScalarHook = func() (Scalar, error) { return Scalar(vs.ScalarBytes("rand_scalar")), nil }
